@@ -29,7 +29,10 @@ CONSTANTS
   DupBudget,
   ClockSteps,   \* set of clock increments (ms) the environment may take
   MaxClock,
-  PreSynced     \* TRUE: start after the handshake (endpoints Running)
+  PreSynced,    \* TRUE: start after the handshake (endpoints Running)
+  InboxCap,     \* at most this many delivered-but-unread packets per peer (guard on Deliver)
+  VaryAll,      \* TRUE: every peer draws inputs from Values; FALSE: only peer 0 (the others submit Default)
+  Granular      \* TRUE: poll_remote_clients / events() are separate steps, packets can be dropped explicitly
 
 VARIABLES ss, cells, game, net, inbox, now, alive, dups, g, lastLine
 
@@ -186,7 +189,7 @@ TickWith(p, vals) ==
 Tick(p) ==
   /\ alive[p] /\ ss[p].err = ""
   /\ ss[p].sl.cur < MaxFrame
-  /\ \E vals \in [1..Len(ss[p].locals) -> Values] : TickWith(p, vals)
+  /\ \E vals \in [1..Len(ss[p].locals) -> IF VaryAll \/ p = 0 THEN Values ELSE {Default}] : TickWith(p, vals)
 
 Poll(p) ==
   /\ alive[p] /\ ss[p].err = ""
@@ -212,6 +215,7 @@ Events(p) ==
 
 Deliver(lk, k) ==
   /\ k \in 1..Len(net[lk])
+  /\ Len(inbox[lk[2]]) < InboxCap
   /\ net' = [net EXCEPT ![lk] = DelAt(@, k)]
   /\ inbox' = IF alive[lk[2]] THEN [inbox EXCEPT ![lk[2]] = Append(@, <<lk[1], net[lk][k]>>)] ELSE inbox
   /\ Feed([a |-> "dlv", from |-> lk[1], to |-> lk[2], k |-> k - 1, n |-> 0, t |-> now])
@@ -264,10 +268,13 @@ SetDelayAct(p, h, d) ==
         /\ UNCHANGED <<cells, game, inbox, now, alive, dups>>
 
 NetStep ==
-  \E lk \in Links : \E k \in 1..LinkCap : Deliver(lk, k) \/ Drop(lk, k) \/ Dup(lk, k)
+  \E lk \in Links : \E k \in 1..LinkCap :
+     \/ Deliver(lk, k)
+     \/ (Granular /\ Drop(lk, k))
+     \/ Dup(lk, k)
 
 Next ==
-  \/ \E p \in P2PIds : Tick(p) \/ Poll(p) \/ Events(p)
+  \/ \E p \in P2PIds : Tick(p) \/ (Granular /\ (Poll(p) \/ Events(p)))
   \/ NetStep
   \/ \E d \in ClockSteps : Tock(d)
 
